@@ -13,7 +13,7 @@ stepgen.tame_ints), EXEC.CMD never gets enough NAME operands (see `cmd_cases` fo
 """
 from gen.pools import fbits
 from gen.stategen import *
-from gen import stepgen
+from gen import stepgen, randgen
 
 MIN, MAX = -2147483648, 2147483647
 NAN, PINF, NINF = 0x7fc00000, 0x7f800000, 0xff800000
@@ -37,6 +37,9 @@ BINDB = [[], [("A", Z(1))], [("A", L()), ("NOOP", I("NOOP"))], [("B", L(N("B")))
 # INTEGER pools of the instructions whose operand is an allocation size / a libm loop count
 ALLOC_I32 = [MIN, -2, -1, 0, 1, 2, 3, 12, 300]
 SINE_I32 = [MIN, -2, -1, 0, 1, 2, 3, 5, 12]
+NBR_I32 = [MIN, -2, -1, 0, 1, 2, 3, 12, 40]
+VEC_RAND = {"BOOLVECTOR.RAND", "INTVECTOR.RAND", "FLOATVECTOR.RAND"}
+SIZED = set(stepgen.ALLOCATING) | VEC_RAND            # the top INTEGER (NEIGHBOR: one of four) is a size
 
 POOLS = {"bool": BOOLB, "code": CODEB, "exec": CODEB, "float": F32B, "index": INDEXB, "int": I32B, "name": NAMEB,
          "bvec": BVECB, "fvec": FVECB, "ivec": IVECB}
@@ -61,7 +64,8 @@ def fill(name, j, depth):
     for k in KEYS:
         pool = POOLS[k]
         if k == "int" and name == "FLOATVECTOR.SINE": pool = SINE_I32
-        elif k == "int" and name in stepgen.ALLOCATING: pool = ALLOC_I32
+        elif k == "int" and name in stepgen.NBR: pool = NBR_I32
+        elif k == "int" and name in SIZED: pool = ALLOC_I32
         st[k] = [pick(pool, j, pos) for pos in range(depth[k])]
     nmsg = [0, 1, 3, 10][j % 4]
     st["input"] = [MSGB[(j + i) % len(MSGB)] for i in range(nmsg)]
@@ -97,12 +101,50 @@ def _finish(rng, name, st, prof, names, safe):
             gs, nn = [], stepgen.next_base(9) + 1
         st["graph"] = [g.wire() for g in gs]
         world = (nn, ())
-    if name in stepgen.ALLOCATING:
+    libm = ()
+    if name in SIZED:
         fl = st["float"]
         st = stepgen.tame_ints(st)
         st["float"] = fl
+    if name in stepgen.NBR and prof == 0:
+        libm = nbr_libm(name, st)
+    if name in stepgen.RANDOM:
+        world = (world[0], randgen.tape(rng))
     st["exec"] = [I(name)] + st["exec"]
-    return case_run(prof, state(**st), 0, 1, world=world)
+    return case_run(prof, state(**st), 0, 1, libm=libm, world=world)
+
+
+def nbr_libm(name, st):
+    """the powf(d, 2.0) oracle entries the debug build of LIST.NEIGHBOR* asks for (as stepgen.shape_nbr_case does)"""
+    vals = name != "LIST.NEIGHBOR*IDS"
+    ints = st["int"]
+    if len(ints) < (4 if vals else 3) or not st["float"]:
+        return ()
+    t = ints[1:4] if vals else ints[0:3]
+    sz = max(t[0], 0); dm = max(min(sz, t[2]), 0)
+    if sz >= 1 and dm >= 1:
+        return stepgen.powf_sq_table(stepgen.iroot_ceil(sz, min(dm, 64)) - 1)
+    return ()
+
+
+def rand_step_case(rng, name, names, safe):
+    """random state for one of the RANDOM instructions (stepgen.step_case has no tape): sizes of the vector RANDs tamed"""
+    st = stepgen.rand_state(rng, names, safe)
+    if name in VEC_RAND:
+        fl = st["float"]
+        st = stepgen.tame_ints(st)
+        st["float"] = fl if rng.random() < 0.5 else [fbits(rng.choice([0.0, 0.25, 0.5, 0.75, 1.0, 2.0])) for _ in fl]
+    if name == "CODE.RAND" and st["int"] and rng.random() < 0.7:
+        st["int"][0] = rng.choice([0, 1, -1, 2, 3, 5, 24, 25, 26, 100, MIN, MAX])
+    if rng.random() < 0.3:
+        c = list(DEFAULT_CFG)
+        c[2], c[3] = rng.choice([(10, -10), (0, 0), (-5, 5), (MAX, MIN), (1, 0), (MAX, MAX - 1)])
+        c[0], c[1] = rng.choice([(fbits(1.0), fbits(-1.0)), (fbits(0.0), fbits(0.0)), (PINF, NINF), (NAN, fbits(0.0)), (fbits(3e38), fbits(-3e38)), (fbits(-1.0), fbits(1.0))])
+        c[7] = rng.choice([fbits(0.001), fbits(0.0), fbits(1.0), NAN, fbits(0.5)])
+        c[8] = rng.choice([25, 0, 1, 2, -25, MIN, MAX])
+        st["cfg"] = c
+    st["exec"] = [I(name)] + st["exec"]
+    return case_run(rng.randrange(2), state(**st), 0, 1, world=(1, randgen.tape(rng)))
 
 
 def cases(rng, name, names, safe, profiles=(0, 1), dense=True):
@@ -133,7 +175,7 @@ def cases(rng, name, names, safe, profiles=(0, 1), dense=True):
                 dep = dict(full); dep[k] = d
                 emit(rng.randrange(nj), dep, rng.choice(profiles))
     # D
-    if name not in stepgen.ALLOCATING:
+    if name not in SIZED:
         for _ in range(3 if dense else 1):
             j = rng.randrange(nj)
             dep = {k: rng.randrange(1, FULL + 1) for k in KEYS}
